@@ -358,7 +358,8 @@ def render_func(fs, info):
         'rules_fired': [[p, n] for p, n in fired if n],
         'sha256_body': hashlib.sha256(loc.body.encode()).hexdigest(),
         'loop_contracts': len([k for k in (fs.loops or {}) if isinstance(k, int)]), 'loop_lines': loop_lines,
-        'slice': ('only the text from %r to %s is under contract; the %d lines before it%s are dropped' % (fs.slice_from, ('the match of %r' % fs.slice_to) if fs.slice_to else 'the end of the function body', dropped_lines, ' and everything after it' if fs.slice_to else '')) if fs.slice_from else None,
+        'slice': (('only the text from %r to %s is under contract; the %d lines before it%s are dropped' % (fs.slice_from, ('the match of %r' % fs.slice_to) if fs.slice_to else 'the end of the function body', dropped_lines, ' and everything after it' if fs.slice_to else '')) if fs.slice_from
+                  else ('only the text before the match of %r is under contract; everything after it is dropped' % fs.slice_to) if fs.slice_to else None),
     }
     return '\n'.join(lines) + '\n'
 
@@ -575,6 +576,16 @@ def classify(name, desc):
 TAG_RE = re.compile(r'\[(C\d\d)\]')
 
 
+def eff_timeout(h):
+    """The per-harness timeouts are hang guards written for an idle 16-core machine; they are scaled (default 3x, VX_TIMEOUT_SCALE) so that a loaded machine
+    (other checks, compilers) does not turn a slow proof into CHECK-BROKEN.  A timeout is never a verdict either way."""
+    try:
+        k = float(os.environ.get('VX_TIMEOUT_SCALE', '3'))
+    except ValueError:
+        k = 3.0
+    return int(h.timeout * max(k, 1.0))
+
+
 def build_and_check(unit, h, ctext, info, outdir, nocache=False, trace_prop=None, extra_defines=()):
     """Serialises concurrent processes that work on the same harness files (two checks of different properties that share a unit, or a check and a
     seeded-mutant run): the files <outdir>/<harness>.{c,gb,i.gb} are rewritten by every run, and a process must not read them while another writes."""
@@ -690,13 +701,13 @@ def _build_and_check(unit, h, ctext, info, outdir, nocache=False, trace_prop=Non
         def one(chunk):
             cmd = cb[:-1] + [x for n in chunk for x in ('--property', n)] + [cb[-1]]
             with SOLVER_SLOTS:
-                return run(cmd, h.timeout, mem_gb=h.mem_gb)
+                return run(cmd, eff_timeout(h), mem_gb=h.mem_gb)
         with ThreadPoolExecutor(max(1, min(16, h.jobs))) as ex:
             outs = list(ex.map(one, chunks))
         for chunk, (rc, so, se, dt) in zip(chunks, outs):
             tot += dt
             if rc == 'timeout':
-                res.update(status='broken', reason='cbmc timeout after %ds on %s' % (h.timeout, chunk[:3]))
+                res.update(status='broken', reason='cbmc timeout after %ds on %s' % (eff_timeout(h), chunk[:3]))
                 return res
             r_, m_, v_ = parse_cbmc_json(so)
             if r_ is None or v_ is None or rc not in (0, 10):
@@ -712,10 +723,10 @@ def _build_and_check(unit, h, ctext, info, outdir, nocache=False, trace_prop=Non
         rc, so = 0, None
     else:
         with SOLVER_SLOTS:
-            rc, so, se, dt = run(cb, h.timeout, mem_gb=h.mem_gb)
+            rc, so, se, dt = run(cb, eff_timeout(h), mem_gb=h.mem_gb)
         res['solver_s'] = round(dt, 2)
         if rc == 'timeout':
-            res.update(status='broken', reason='cbmc timeout after %ds' % h.timeout)
+            res.update(status='broken', reason='cbmc timeout after %ds' % eff_timeout(h))
             return res
         results, msgs, verdict = parse_cbmc_json(so)
         if results is None or verdict is None or rc not in (0, 10):
